@@ -76,7 +76,7 @@ def check_scalar_subclass(rep, base, m, c, psub, q, wit):
         return
     if deps != [d.cache_key for d in get_direct_dependencies(base)]:
         rep.violation('copy-deps-differ', f'{t!r}: other dependencies than the task built from plain scalars', wit)
-    for proto in (0, pickle.HIGHEST_PROTOCOL):
+    for proto in (min(__import__('vlab.valgen', fromlist=['x']).pickle_protocols(t)), pickle.HIGHEST_PROTOCOL):
         try:
             cp = pickle.loads(pickle.dumps(t, protocol=proto))
             cdeps = [d.cache_key for d in get_direct_dependencies(cp)]
@@ -221,7 +221,7 @@ def run_shard(rep):
         base.set_context({'secret': 'ctx'})
         base._set_results_map({base: TaskResult(value=1, meta=ResultMeta(start=None, duration=None))})
         derived = getattr(base, 'derived', None) if c in ('VP', 'VS') else None
-        for proto in range(0, pickle.HIGHEST_PROTOCOL + 1):
+        for proto in valgen.pickle_protocols(base):
             try:
                 cp = pickle.loads(pickle.dumps(base, protocol=proto))
             except BaseException as ex:   # noqa
@@ -291,5 +291,5 @@ def replay(rep, wit):
         rep.violation('unsupported-accepted', repr(t), w)
         return
     derived = getattr(t, 'derived', None) if w['cls'] == 'VP' else None
-    for proto in range(0, pickle.HIGHEST_PROTOCOL + 1):
+    for proto in __import__('vlab.valgen', fromlist=['x']).pickle_protocols(t):
         check_copy(rep, t, pickle.loads(pickle.dumps(t, protocol=proto)), f'pickle {proto}', w, derived)
